@@ -6,7 +6,9 @@ def m_a(inputs, model_fidelity=None):
     mf = np.atleast_2d(np.asarray(model_fidelity, dtype=float)) if model_fidelity is not None else np.zeros((1, 0))
     fac = 1.0 + 0.15 * (mf.sum(axis=-1) if mf.shape[-1] > 0 else 0.0)
     n = len(np.atleast_1d(inputs['x0']))
-    cost = np.full(n, 0.37) * (1.0 + 2.5 * (mf.sum(axis=-1) if mf.shape[-1] > 0 else 0.0))
+    # the reported cost differs from evaluation to evaluation (it depends on the input): running averages kept by the component
+    # must survive save/load exactly for continued training to book the same costs
+    cost = np.full(n, 0.37) * (1.0 + 2.5 * (mf.sum(axis=-1) if mf.shape[-1] > 0 else 0.0)) * (1.0 + 0.8 * np.atleast_1d(inputs['x0']))
     return {'ya': np.exp(0.4 * np.atleast_1d(inputs['x0'])) * fac + 0.3 * np.atleast_1d(inputs['x1']) ** 2, 'model_cost': cost}
 
 
